@@ -93,6 +93,8 @@ def concretize(model, v):
         return {'__reclist__': out, 'cls': v.cls}
     if isinstance(v, (int, str, bool, float)) or v is None:
         return v
+    if isinstance(v, EnumMember):
+        return {'__enum__': f'{v.cls.module.relpath}::{v.cls.name}', 'name': v.name}
     if isinstance(v, lib.SMap):
         return smap(model, v)
     from . import envmodel as E
